@@ -357,5 +357,6 @@ def main(argv):
             print("mutant %-40s %s" % (r["name"], "caught" if (r["caught"] and not r["missed"] and r["status"] == "ok") else "quiet (negative control)" if quiet_ok else r["status"] if r["status"] != "ok" else "MISSED"))
         if missed:
             print("CHECKER-WEAKNESS: mutants not caught by %s: %s" % (a.prop.upper(), missed))
-    obl, new, listed = run_property(a.prop.upper(), a.tier, a.facts, a.repo, extra_cov=extra)
+    # evidence describes /repo itself: a debugging run on a fact file or another tree never rewrites it
+    obl, new, listed = run_property(a.prop.upper(), a.tier, a.facts, a.repo, extra_cov=extra, write_evidence=not (a.facts or a.repo))
     return 1 if new else 0
